@@ -73,6 +73,8 @@ def impl():
             self.tag = tag
             self.rtt = rtt
             self.failed = failed
+            # GOOD and UNKNOWN nodes both occur (the status must not influence which nodes are nearest)
+            self.last_response = time.time() if tag % 3 == 0 else 0
 
         @property
         def id(self):
@@ -119,14 +121,14 @@ def check_table(rt, cap, own):
     own_b = bits_of(own)
     if len(set(keys)) != len(keys):
         bad.append(("tree/duplicate-bucket-key", "a bucket key occurs twice"))
-    ks = set(keys)
     for k in keys:
         if len(k) > W:
             bad.append(("tree/prefix-too-long", "bucket prefix of %d bits" % len(k)))
-        for j in range(len(k)):
-            if k[:j] in ks:
-                bad.append(("tree/not-prefix-free", "bucket %r lies below bucket %r" % (k, k[:j])))
-                break
+    sk = sorted(keys)
+    for a, b in zip(sk, sk[1:]):   # in sorted order a key is immediately followed by one of its extensions, if any
+        if b.startswith(a) and a != b:
+            bad.append(("tree/not-prefix-free", "bucket %r lies below bucket %r" % (b, a)))
+            break
     # complete: prefix-free keys cover the space iff the sizes of their sub-spaces add up to 2^W
     if sum(1 << (W - len(k)) for k in keys if len(k) <= W) != 1 << W:
         bad.append(("tree/not-complete", "buckets do not cover the identifier space: %r" % sorted(keys)[:12]))
@@ -258,7 +260,10 @@ def run_history(args):
     stats = {"splits": 0, "max_depth": 0, "rejected": 0, "updates": 0, "closest": 0, "oracle_closest": 0, "nodes_max": 0}
     nb = 1
     known = []
+    deep_probes = 0
     for idx, op in enumerate(ops):
+        if op[0] == "rmbad":
+            before = [(n.tag, n.failed >= 2) for _, b in walk_trie(rt.trie) for n in b.nodes.values()]
         try:
             res = apply_op(rt, op, centers)
         except Exception as e:   # noqa
@@ -267,11 +272,23 @@ def run_history(args):
             break
         results.append(res)
         if op[0] == "add":
-            known.append(resolve(op[1], centers))
+            nid = resolve(op[1], centers)
+            known.append(nid)
             if res[1] is None:
                 stats["rejected"] += 1
             elif res[1][0] != op[2]:
                 stats["updates"] += 1
+            # what add returned is what the table now holds under that id (None: the id is not in the table)
+            holder = [n for _, b in walk_trie(rt.trie) for n in b.nodes.values() if int.from_bytes(n.id, "big") == nid] \
+                if (idx in checks or len(ops) <= 400) else None
+            if holder is not None and [rec(n) for n in holder] != ([res[1]] if res[1] is not None else []):
+                viol.append(("add/result-not-in-table", "add(%040x) returned %s but the table holds %s under that id"
+                             % (nid, res[1], [rec(n) for n in holder]), idx))
+        if op[0] == "rmbad":
+            after = sorted(n.tag for _, b in walk_trie(rt.trie) for n in b.nodes.values())
+            if res[1] != sorted(t for t, bad in before if bad) or after != sorted(t for t, bad in before if not bad):
+                viol.append(("remove_bad/not-exactly-the-bad-nodes", "remove_bad_nodes removed tags %s; bad before: %s; kept: %s"
+                             % (res[1], sorted(t for t, bad in before if bad), after), idx))
         if op[0] == "closest":
             stats["closest"] += 1
             t, ex = resolve(op[1], centers), resolve(op[3], centers)
@@ -297,16 +314,25 @@ def run_history(args):
                 viol.append((key, what, idx))
             targets = probe + r.sample(nodes, min(len(nodes), 10)) + [own ^ (1 << r.randrange(W)) ^ r.getrandbits(r.randrange(1, W))
                                                                     for _ in range(16)]
-            for t in targets[:50]:
+            live = [(int.from_bytes(n.id, "big"), n.tag) for _, b in items for n in b.nodes.values() if n.failed < 2]
+            # closest_nodes of the implementation is quadratic in the depth of the tree: fewer probes on deep trees
+            shallow = len(items) <= 24
+            ks = range(1, 21) if shallow else (1, 3, 8, 20)
+            if not shallow:
+                deep_probes += 1
+                if deep_probes > 1 and idx != len(ops) - 1:
+                    targets = []
+            for t in (targets[:50] if shallow else targets[:3] + targets[-4:]):
                 excl = r.choice([None, None, r.choice(nodes) if nodes else None])
-                for k in range(1, 21):
+                order = [tag for _, tag in sorted((i ^ t, tag) for i, tag in live if i != excl)]
+                for k in ks:
                     stats["oracle_closest"] += 1
                     try:
                         got = impl_closest(rt, t, k, excl)
                     except Exception as e:   # noqa
                         viol.append(("closest/raises", "closest_nodes raised %s" % type(e).__name__, idx))
                         break
-                    want = brute_closest(rt, t, k, excl)
+                    want = order[:k]
                     if got != want:
                         viol.append(("closest/not-the-k-nearest", "closest_nodes(%040x, k=%d, exclude=%s) returned tags %s, "
                                      "the k nearest live nodes are %s" % (t, k, excl, got, want), idx))
@@ -321,10 +347,14 @@ def gen_history(r, n_ops, cap):
     our own id) and repeated identifiers, status changes, bad-node removal, lookups."""
     own = r.choice([r.getrandbits(W), r.getrandbits(W), 0, FULL, r.getrandbits(W) & ~0xFFFF])
     centers = [own] + [r.getrandbits(W) for _ in range(3)] + [own ^ (1 << r.randrange(W)) ^ r.getrandbits(20)]
-    style = r.choice(["uniform", "mixed", "mixed", "clustered", "deep", "offpath"])
+    style = r.choice(["uniform", "uniform", "uniform", "mixed", "mixed", "band", "offpath", "deep"])
+    band = r.randrange(0, W - 30)
     specs = []
     ops = []
     tag = 0
+    # closest_nodes on a large table is expensive on both sides (quadratic walk in the implementation, set union and
+    # sort in the model): long histories carry fewer of them
+    p_closest = 0.105 if n_ops <= 400 else 0.05 if n_ops <= 900 else 0.025
 
     def seed():
         return r.getrandbits(32)
@@ -337,12 +367,18 @@ def gen_history(r, n_ops, cap):
             return ("near", r.randrange(1, len(centers)), W - 1 - r.choice([8, 16, 40]), seed())
         if style == "deep" or u < 0.8:
             # shares exactly L leading bits with our own id (adversarial clustering around own)
-            L = r.choice([W - 1, W - 2, W - 3, W - 4, r.randrange(W - 12, W), r.randrange(W), r.randrange(W)]) \
-                if style == "deep" else r.randrange(W)
+            if style == "deep":
+                L = r.choice([W - 1, W - 2, W - 3, W - 4, r.randrange(W - 12, W), r.randrange(W), r.randrange(W)])
+            elif style == "band":
+                L = band + r.randrange(30)
+            else:
+                L = min(W - 1, int(r.expovariate(0.12)))
             return ("near", 0, L, seed())
         if specs and u < 0.9:
             base = r.choice(specs)
             if base[0] == "near":
+                if base[1] == 0 and style != "deep":        # siblings of a node near our own id, not deeper ones
+                    return ("near", 0, base[2], seed())
                 return ("near", base[1], max(base[2], W - 1 - r.choice([0, 1, 3, 8])), seed()) if r.random() < 0.5 else \
                        ("near", base[1], base[2], base[3] ^ 1)
         return ("near", r.randrange(len(centers)), r.choice([0, 1, 2, 5, 30]), seed())
@@ -371,8 +407,13 @@ def gen_history(r, n_ops, cap):
             ops.append(("rmbad",))
         elif u < 0.88:
             ops.append(("get", some_spec()))
-        elif u < 0.985:
+        elif u < 0.88 + p_closest:
             ops.append(("closest", some_spec(), r.randrange(1, 21), r.choice([None, None, some_spec()])))
+        elif u < 0.985:
+            i = r.choice(specs) if (specs and r.random() < 0.08) else new_spec()
+            specs.append(i)
+            tag += 1
+            ops.append(("add", i, tag, r.randrange(1, 65536), r.randrange(0, 300), r.choice([0, 0, 0, 2])))
         elif u < 0.99:
             ops.append(("dist", some_spec(), some_spec()))
         elif u < 0.992:
@@ -726,7 +767,10 @@ def eval_case(c):
     kind = c["kind"]
     if kind == "genid":
         draw = c["draw"] if isinstance(c["draw"], str) else tuple(c["draw"])
-        out, owned, v, rng = gen_id_impl(c["prefix"], draw)
+        try:
+            out, owned, v, rng = gen_id_impl(c["prefix"], draw)
+        except Exception as e:   # noqa
+            return [("generate_id/raises", "Bucket(%r).generate_id() raised %s" % (c["prefix"], type(e).__name__))]
         if not owned:
             return [("generate_id/outside-bucket", "Bucket(%r).generate_id() with draw %r of randint%r gave %s, not owned by the bucket"
                      % (c["prefix"], v, rng, out.hex()))]
@@ -746,6 +790,28 @@ def eval_case(c):
         _, viol, _ = run_history((cap, [own], ops, 1, set(range(len(ops)))))
         return [(k, w) for k, w, _ in viol]
     return [("corpus/unknown-kind", kind)]
+
+
+def shrink_case(c, key, budget=10.0):
+    """Greedy one-at-a-time removal of operations from a trie / sweep witness while the same violation remains."""
+    field = "ops" if c["kind"] == "trie" else "seq" if c["kind"] == "exh" else None
+    if field is None:
+        return c
+    cur = dict(c)
+    t0 = time.time()
+    i = 0
+    while i < len(cur[field]) and time.time() - t0 < budget:
+        cand = dict(cur)
+        cand[field] = cur[field][:i] + cur[field][i + 1:]
+        try:
+            still = cand[field] and any(k == key for k, _ in eval_case(cand))
+        except Exception:   # noqa
+            still = False
+        if still:
+            cur = cand
+        else:
+            i += 1
+    return cur
 
 
 # ---------------------------------------------------------------------------- the check
@@ -818,7 +884,7 @@ def _run_stage_c(ctx, pool):
 
     _trace(ctx, "generate_id done (%d cases)" % len(gen_cases))
     # ---- trie: exhaustive short sequences + random
-    tcases = trie_exhaustive(2 if ctx.quick else 3, 2) + trie_exhaustive(3 if ctx.quick else 4, 1)
+    tcases = trie_exhaustive(3 if ctx.quick else 4, 2) + trie_exhaustive(4 if ctx.quick else 5, 1)
     tcases += [gen_trie_ops(r, r.choice([5, 15, 40])) for _ in range(600 if ctx.quick else 6000)]
     tres = pool.map(run_trie_impl, tcases, chunksize=64)
     _trace(ctx, "trie impl done (%d cases)" % len(tcases))
@@ -830,7 +896,7 @@ def _run_stage_c(ctx, pool):
             nv += 1
             if nv <= 6:
                 small = ops[:idx + 1]
-                ctx.violation(key, what, {"kind": "trie", "ops": [list(o) for o in small]})
+                ctx.violation(key, what, shrink_case({"kind": "trie", "ops": [list(o) for o in small]}, key))
         coq_cases.append(("[%s]" % "; ".join(top_coq(o) for o in ops), "[%s]" % "; ".join(tres_coq(x) for x in results)))
     ctx.sample({"trie_ops": [list(o) for o in tcases[-1][:8]], "impl": [list(x) for x in tres[-1][0][:8]]})
     mism, errs = coqrun.eval_mismatches(IMPORTS, "run_trie", "list_eqb tres_eqb", coq_cases, os.path.join(scratch, "trie"),
@@ -847,7 +913,7 @@ def _run_stage_c(ctx, pool):
     # ---- exhaustive sweep: every addition sequence over a 4-bit identifier space, capacity 2
     depth = 3 if ctx.quick else 4          # sequences of length <= depth + 1
     exh_in, exh_cases = [], []
-    owns = [0b0110 << (W - 4), (0b1111 << (W - 4)) | 12345] if ctx.quick else [0b0110 << (W - 4), (0b1111 << (W - 4)) | 12345, 0]
+    owns = [0b0110 << (W - 4)] if ctx.quick else [0b0110 << (W - 4), (0b1111 << (W - 4)) | 12345]
     for own in owns:
         for first in range(16):
             exh_in.append((2, own, first, depth))
@@ -860,7 +926,8 @@ def _run_stage_c(ctx, pool):
         ctx.coverage["evaluations"] += count
         ctx._distinct.add(("exh", own, first, d))
         for key, what, seq in viol[:2]:
-            ctx.violation(key, "4-bit sweep, additions %s: %s" % (seq, what), {"kind": "exh", "cap": cap, "own": "%x" % own, "seq": seq})
+            ctx.violation(key, "4-bit sweep, additions %s: %s" % (seq, what),
+                          shrink_case({"kind": "exh", "cap": cap, "own": "%x" % own, "seq": seq}, key))
         exh_cases.append(("(%d, %d, %s, %s, %d, %d)" % (W, cap, cz(own), plc, first, d), str(digest)))
     mism, errs = coqrun.eval_mismatches(IMPORTS, "run_exh", "Z.eqb", exh_cases, os.path.join(scratch, "exh"),
                                         ctype="exh_case * Z", shard=1, jobs=14, timeout=1500)
@@ -873,10 +940,10 @@ def _run_stage_c(ctx, pool):
 
     _trace(ctx, "sweep model done (%d sequences)" % nseq)
     # ---- random histories at W = 160
-    nh = 200 if ctx.quick else 2000
+    nh = 120 if ctx.quick else 1200
     hist_in = []
     for i in range(nh):
-        n_ops = r.choice([30, 120, 120, 400, 400, 900, 2000]) if i % 8 else 2000
+        n_ops = r.choice([30, 120, 120, 400, 400, 900]) if i % 12 else 2000
         cap = 8 if i % 5 else r.choice([1, 2, 3, 8])
         centers, ops = gen_history(r, n_ops, cap)
         step = 1 if n_ops <= 120 else max(1, n_ops // 6)
@@ -910,7 +977,7 @@ def _run_stage_c(ctx, pool):
     ctx.sample({"history": {"cap": hist_in[last][0], "own": "%x" % hist_in[last][1][0],
                             "ops": ops_json(hist_in[last][2][:6]), "impl": [list(x) for x in hist_out[last][0][:6]]}})
     # interleave long and short histories over the shards
-    nsh = 28 if ctx.quick else 112
+    nsh = 28 if ctx.quick else 140
     perm = [j for s in range(nsh) for j in range(s, nh, nsh)]
     shard = (nh + nsh - 1) // nsh
     coq_perm = [coq_cases[j] for j in perm]
@@ -930,11 +997,14 @@ def _run_stage_c(ctx, pool):
     ctx.coverage["rule"] = (
         "trie: every sequence of set/del over all keys of length <= 2 (depth %d) and <= 1 (depth %d) followed by a full observation, "
         "plus random op sequences; routing: random histories (30..2000 ops, capacity 8 and 1..3) with uniform, clustered-around-own, "
-        "off-path-clustered and repeated ids, touch/remove_bad/get/closest/dump, oracle at checkpoints with 50 targets x k=1..20; "
+        "off-path-clustered and repeated ids, touch/remove_bad/get/closest/dump; oracle: tree validity after every split and at "
+        "checkpoints, get_bucket on 24 ids and closest_nodes for 50 targets x k=1..20 at checkpoints (7 targets x k in {1,3,8,20} "
+        "when the tree has more than 24 buckets: the implementation's walk is quadratic in the depth), every closest/add/"
+        "remove_bad operation of the history itself; "
         "exhaustive: all addition sequences of length <= %d over 16 ids differing in the top 4 bits, capacity 2 (digest compared "
         "with the model, oracle on every state); generate_id: every prefix length 0..160 with minimal, maximal and random draws. "
         "non-trivial = history with at least one split / trie sequence with a deletion / non-empty prefix"
-        % ((2 if ctx.quick else 3), (3 if ctx.quick else 4), depth + 1))
+        % ((3 if ctx.quick else 4), (4 if ctx.quick else 5), depth + 1))
     ctx.coverage["exhaustive"] = False
 
 
